@@ -600,10 +600,10 @@ pub fn get_value(
         Some(Function::Substring) => {
             let string = String::from(&function_arg);
 
-            let mut pos: i32 = match &function_args.is_empty() {
+            let mut pos: i64 = match &function_args.is_empty() {
                 true => 0,
                 false => match function_args[0].parse::<i32>() {
-                    Ok(pos) => pos - 1,
+                    Ok(pos) => pos as i64 - 1,
                     _ => error_exit(
                         "Could not parse position argument of SUBSTRING function",
                         function_args[0].as_str(),
@@ -612,7 +612,7 @@ pub fn get_value(
             };
 
             if pos < 0 {
-                let string_length = string.chars().count() as i32;
+                let string_length = string.chars().count() as i64;
                 pos = string_length - pos.abs() + 1;
             }
 
